@@ -6,6 +6,7 @@
 import DateutilVerif.Ops.Base
 import DateutilVerif.Ops.CacheOps
 import DateutilVerif.Ops.Factory
+import DateutilVerif.Ops.GettzGen
 import DateutilVerif.Ops.ICal
 import DateutilVerif.Ops.IsoParser
 import DateutilVerif.Ops.NestedOps
@@ -23,7 +24,7 @@ import DateutilVerif.Ops.Weekday
 import DateutilVerif.Ops.Zones
 
 def handlers : List (String → List String → Option String) :=
-  [Ops.Base.handle, Ops.CacheOps.handle, Ops.Factory.handle, Ops.ICal.handle, Ops.IsoParser.handle, Ops.NestedOps.handle, Ops.Parser.handle, Ops.QueryOps.handle, Ops.RRule.handle, Ops.RRuleStr.handle, Ops.RSetOps.handle, Ops.RelativeDelta.handle, Ops.ReplaceOps.handle, Ops.TzGen.handle, Ops.TzObjGen.handle, Ops.TzStr.handle, Ops.Weekday.handle, Ops.Zones.handle]
+  [Ops.Base.handle, Ops.CacheOps.handle, Ops.Factory.handle, Ops.GettzGen.handle, Ops.ICal.handle, Ops.IsoParser.handle, Ops.NestedOps.handle, Ops.Parser.handle, Ops.QueryOps.handle, Ops.RRule.handle, Ops.RRuleStr.handle, Ops.RSetOps.handle, Ops.RelativeDelta.handle, Ops.ReplaceOps.handle, Ops.TzGen.handle, Ops.TzObjGen.handle, Ops.TzStr.handle, Ops.Weekday.handle, Ops.Zones.handle]
 
 def dispatch (line : String) : String :=
   match (line.trimAscii.toString.splitOn " ").filter (· ≠ "") with
